@@ -31,6 +31,12 @@ def rv_dump(v):
     return f"n{v.idx}:" + ",".join(sorted(vars(v)))
 
 
+def rv_markup(v):
+    """Labels made of the characters that mean something to HTML / JSON / JavaScript; or not strings at all."""
+    i = v.idx
+    return [f"R&D <{i}>", f"a->b {i} \"q\"", f"</script>{i}", f"x<y&&y>z #{i}", i, f"tab\t{i}\nline", f"{i}%20&amp;"][i % 7]
+
+
 def re_(e):
     return f"{type(e).__name__}#{e.eidx}"
 
@@ -40,7 +46,8 @@ def floors(ctx):
     return {"evaluations": 800 if q else 8000, "edges_checked": 2000 if q else 20000, "internal_selfloops": 100,
             "graphs_with_parallel": 50, "graphs_with_mixed_kinds": 50, "links_leaving_universe": 100,
             "empty_universe": 3, "undirected_merged_pairs": 20, "universes_over_256_members": 1, "cases_with_network_kwargs": 100,
-            "links_listing_a_third_vertex": 100, "graphs_with_non_default_laws": 100}
+            "links_listing_a_third_vertex": 100, "graphs_with_non_default_laws": 100,
+            "cases_with_markup_characters_in_labels": 100}
 
 
 NETWORK_KWARGS = [None, {"directed": True}, {"directed": False}, {"cdn_resources": "local", "directed": True, "notebook": False}]
@@ -49,7 +56,9 @@ NETWORK_KWARGS = [None, {"directed": True}, {"directed": False}, {"cdn_resources
 def run_case(ctx, spec, with_funcs, nk=0):
     g = graphs.build(spec)
     case = {"spec": spec, "funcs": with_funcs, "nk": nk}
-    rvf = rv_dump if with_funcs == "dump" else rv
+    rvf = rv_dump if with_funcs == "dump" else rv_markup if with_funcs == "markup" else rv
+    if with_funcs == "markup":
+        ctx.count("cases_with_markup_characters_in_labels")
     kw = dict(rvfunc=rvf, refunc=re_) if with_funcs else {}
     if NETWORK_KWARGS[nk] is not None:
         kw["network_kwargs"] = dict(NETWORK_KWARGS[nk])
@@ -192,7 +201,7 @@ def run(ctx):
                 spec["extra"] = [[k_, i_] for k_, i_ in spec["extra"] if i_ not in spec["edges"][k_][1:3]]
         for f in graphs.features(spec):
             ctx.count("graphs_with_" + f)
-        run_case(ctx, spec, ("dump" if n % 4 == 3 else True) if n % 2 else False,
+        run_case(ctx, spec, ("dump" if n % 4 == 3 else "markup" if n % 8 == 5 else True) if n % 2 else False,
                  nk=(n // 2) % len(NETWORK_KWARGS) if n % 3 == 0 else 0)
         k += 1
         if k in (4, 150) and ctx.shard == 0:
